@@ -50,6 +50,33 @@ NATURAL = ('convertmethod', 'convertnumbers', 'format', 'formatall',
            'interpolate', 'interpolateall')
 
 
+_CELLKIND = ['int']
+
+
+def _cell(code):
+    """The table cell that carries `code` (row id * 10 + field digit): an
+    int, or a container holding it - what a failing cell looks like must not
+    matter to the policy."""
+    k = _CELLKIND[0]
+    if k == 'tuple2':
+        return (code, 'pad')
+    if k == 'tuple3':
+        return (code, None, 'pad')
+    if k == 'list':
+        return [code]
+    if k == 'str':
+        return 'c%d' % code
+    return code
+
+
+def _code(v):
+    if isinstance(v, (tuple, list)):
+        return v[0]
+    if isinstance(v, str):
+        return int(v[1:])
+    return v
+
+
 class Injected(Exception):
     def __init__(self, rid, field):
         Exception.__init__(self, 'injected failure at row %r field %r'
@@ -116,7 +143,7 @@ class Faults(object):
 
     def conv(self, field):
         def f(v, *row):
-            rid = v // 10
+            rid = _code(v) // 10
             if (rid, field) in self.fail:
                 e = self.cls(rid, field)
                 self.made.append(e)
@@ -127,7 +154,7 @@ class Faults(object):
     def recfun(self, field):
         def f(rec):
             v = rec[field]
-            rid = v // 10
+            rid = _code(v) // 10
             if (rid, field) in self.fail:
                 e = self.cls(rid, field)
                 self.made.append(e)
@@ -194,6 +221,9 @@ def gen_case(rng, tier, g):
             'exc_kind': rng.choice(['plain', 'plain', 'stop', 'key', 'index',
                                     'type', 'attr']),
             'lazy': rng.random() < 0.5,
+            'cellkind': rng.choice(['int', 'int', 'tuple2', 'tuple3', 'list',
+                                    'str']) if form not in NATURAL
+            else 'int',
             'extra_col': rng.random() < 0.5 and form != 'convertnumbers'}
 
 
@@ -205,7 +235,7 @@ def _table(case, natural_fail=None):
     rows = [['id', 'v', 'w'] + (['x'] if case['extra_col'] else [])]
     for r in range(n):
         if natural_fail is None:
-            row = [r, r * 10 + 1, r * 10 + 2]
+            row = [r, _cell(r * 10 + 1), _cell(r * 10 + 2)]
         else:
             # cells that make the natural conversions fail when selected
             row = [r, natural_fail.get((r, 'v'), r * 10 + 1),
@@ -278,7 +308,7 @@ def _both(fl):
     """One converter applied to both fields v and w: the field is recovered
     from the cell (v cells end in 1, w cells in 2)."""
     def f(v, *row):
-        field = 'v' if v % 10 == 1 else 'w'
+        field = 'v' if _code(v) % 10 == 1 else 'w'
         return fl.conv(field)(v)
     return f
 
@@ -316,7 +346,7 @@ def _model(case, fail, policy):
         two = form in ('convert2', 'convertdict')
         for r in range(n):
             sel = case['where'][r] if form == 'convertwhere' else True
-            v, w = r * 10 + 1, r * 10 + 2
+            v, w = _cell(r * 10 + 1), _cell(r * 10 + 2)
             if sel:
                 cv = cellres(r, 'v', v)
                 if raised:
@@ -330,27 +360,27 @@ def _model(case, fail, policy):
     elif form == 'convertall':
         rows.append(['v', 'w'])
         for r in range(n):
-            cv = cellres(r, 'v', r * 10 + 1)
+            cv = cellres(r, 'v', _cell(r * 10 + 1))
             if raised:
                 break
-            cw = cellres(r, 'w', r * 10 + 2)
+            cw = cellres(r, 'w', _cell(r * 10 + 2))
             if raised:
                 break
             rows.append([cv, cw])
     elif form == 'fieldmap':
         rows.append(['id', 'V', 'c'])
         for r in range(n):
-            cv = cellres(r, 'v', r * 10 + 1)
+            cv = cellres(r, 'v', _cell(r * 10 + 1))
             if raised:
                 break
-            rows.append([r, cv, r * 10 + 2])
+            rows.append([r, cv, _cell(r * 10 + 2)])
     elif form == 'fieldmap2':
         rows.append(['V', 'id', 'W'])
         for r in range(n):
-            cv = cellres(r, 'v', r * 10 + 1)
+            cv = cellres(r, 'v', _cell(r * 10 + 1))
             if raised:
                 break
-            cw = cellres(r, 'w', r * 10 + 2)
+            cw = cellres(r, 'w', _cell(r * 10 + 2))
             if raised:
                 break
             rows.append([cv, r, cw])
@@ -509,6 +539,7 @@ def run_case(case):
     nruns = 0
     fired = 0
     saved = config.failonerror
+    _CELLKIND[0] = case.get('cellkind', 'int')
     try:
         # a decoy view of the same form, iterated first with another
         # errorvalue under policy False: a view's error handling must not
@@ -536,16 +567,36 @@ def run_case(case):
                         want, raised = _natural_model(case, fail, policy)
                     else:
                         want, raised = _model(case, fail, policy)
-                    for mode in ('arg', 'config'):
+                    modes = ('arg', 'config')
+                    if form in ('convert1', 'fieldmap'):
+                        # the converter is installed on an existing view
+                        # (view[field] = ...) after it has been iterated once
+                        # with a harmless converter
+                        modes = ('arg', 'config', 'setitem')
+                    for mode in modes:
                         fl = Faults(fail, case.get('exc_kind', 'plain'),
                                     case.get('lazy', False))
+                        if mode == 'setitem':
+                            config.failonerror = False if policy else True
+                            view = _build(e, case, Faults(set()), policy,
+                                          'arg', tbl)
+                            _run_view(view, 1)
+                            if form == 'convert1':
+                                view['v'] = fl.conv('v')
+                            else:
+                                view['V'] = ('v', fl.conv('v'))
+                            results = _run_view(view, case['consumers'])
+                        else:
+                            results = None
                         # the default is read at construction: set it, build,
                         # then set it to something else before iterating
-                        config.failonerror = policy if mode == 'config' \
-                            else ('inline' if policy is not True else False)
-                        view = _build(e, case, fl, policy, mode, tbl)
-                        config.failonerror = False if policy else True
-                        results = _run_view(view, case['consumers'])
+                        if results is None:
+                            config.failonerror = policy if mode == 'config' \
+                                else ('inline' if policy is not True
+                                      else False)
+                            view = _build(e, case, fl, policy, mode, tbl)
+                            config.failonerror = False if policy else True
+                            results = _run_view(view, case['consumers'])
                         nruns += 1
                         fired += len(fl.made)
                         what = '%s(n=%d, failing=%r, failonerror=%r via %s)' \
@@ -607,6 +658,7 @@ def run_case(case):
                        extra={'group': form})
     finally:
         config.failonerror = saved
+        _CELLKIND[0] = 'int'
     return outcome('ok', digest=log.hexdigest(), steps=nruns,
                    probes={'form:' + form: 1, 'fault-points-x-policies-x-modes':
                            nruns, 'two-consumers': case['consumers'] - 1,
@@ -649,6 +701,10 @@ def shrink_candidates(case):
     if case.get('lazy'):
         c = copy.deepcopy(case)
         c['lazy'] = False
+        yield c
+    if case.get('cellkind', 'int') != 'int':
+        c = copy.deepcopy(case)
+        c['cellkind'] = 'int'
         yield c
 
 
